@@ -54,14 +54,14 @@ def scan : Nat → List Nat → Bool → List Nat → Bool
     else if b = 32 then tok && scan fuel stack false r
     else if b = lp ∨ b = lb then scan fuel (b :: stack) false r       -- `(` may be followed by `)` or a token, not by SP
     else if b = rp then stack.head? = some lp && scan fuel stack.tail true r
-    else if b = rb then stack.head? = some lb && scan fuel stack.tail true r
+    else if b = rb then (if stack.head? = some lb then scan fuel stack.tail true r else scan fuel stack true r)   -- a `]` that closes nothing is an ordinary character (tags and astrings may contain it)
     else if b = dq then (match skipQuoted r with | some r' => scan fuel stack true r' | none => false)
     else if b = lc then
       let p := readNum 0 r
       if p.2.take 3 = [rc, 13, 10] then
         firstIsDigit r && p.1 ≤ (p.2.drop 3).length && scan fuel stack true ((p.2.drop 3).drop p.1)
       else false
-    else if b = 126 then (if r.head? = some lc then scan fuel stack false r else false)   -- '~' only before a literal
+    else if b = 126 then (if r.head? = some lc then scan fuel stack false r else scan fuel stack true r)   -- '~' introduces a literal8, otherwise it is an ordinary atom character
     else plain b && scan fuel stack true r
 
 def wf (bytes : List Nat) : Bool := scan (bytes.length + 1) [] false bytes
